@@ -6,6 +6,6 @@ for d in seeded/*; do
   if ! git -C /repo apply --check /verif/$d/patch.diff 2>/dev/null; then echo "$id DOES-NOT-APPLY"; continue; fi
   out=$(tools/seedtest.sh /verif/$d/patch.diff $prop 2>&1)
   rc=$(echo "$out" | grep -o 'rc=[0-9]*' | head -1)
-  sigs=$(echo "$out" | sed -n 's/^VIOLATION property=[^ ]* replay=[^ ]* \[\([^]]*\)\].*/\1/p' | sort | uniq -c | sort -rn | head -3 | awk '{print $2" x"$1}' | tr '\n' ' ')
+  sigs=$(echo "$out" | tr -d '\r' | grep -ao '^VIOLATION property=[^ ]* replay=[^ ]* \[[^]]*\]' | sed 's/.*\[//; s/\]$//' | sort | uniq -c | sort -rn | head -3 | awk '{print $2" x"$1}' | tr '\n' ' ')
   echo "$id $rc $sigs"
 done
